@@ -20,6 +20,7 @@ import (
 	"path/filepath"
 	"sort"
 	"strings"
+	"syscall"
 	"time"
 
 	sym "github.com/feichai0017/NoKV/internal/verifsym"
@@ -54,6 +55,67 @@ type FS struct {
 	Trace   []Effect
 	// FailRemove makes Remove return an error (fault injection, no crash).
 	FailRemove bool
+	// YieldOnOps makes every FS / File call except Read/Write/Seek a scheduling
+	// point (concurrency mode; the native replay instruments the same calls).
+	YieldOnOps bool
+}
+
+func (fs *FS) yield() {
+	if fs.YieldOnOps {
+		sym.Yield()
+	}
+}
+
+// ---- flock(2) model: locks belong to open file descriptions and attach to inodes ----
+
+type description struct {
+	ino    *inode
+	closed bool
+}
+
+var (
+	descriptions = map[int]*description{}
+	nextFD       = 100
+	lockHolder   = map[*inode]*description{}
+)
+
+const (
+	lockEX = 2
+	lockNB = 4
+	lockUN = 8
+)
+
+var errWouldBlock = syscall.EWOULDBLOCK
+
+// Flock models syscall.Flock for descriptors handed out by memfs files
+// (installed in place of syscall.Flock inside the engine).
+func Flock(fd int, how int) error {
+	sym.Yield()
+	d, ok := descriptions[fd]
+	if !ok || d.closed {
+		return syscall.EBADF
+	}
+	if how&lockUN != 0 {
+		if lockHolder[d.ino] == d {
+			delete(lockHolder, d.ino)
+		}
+		return nil
+	}
+	if h, held := lockHolder[d.ino]; held && h != d {
+		return errWouldBlock // LOCK_NB
+	}
+	lockHolder[d.ino] = d
+	return nil
+}
+
+// Fd implements vfs.FDProvider.
+func (f *File) Fd() uintptr {
+	if f.fd == 0 {
+		nextFD++
+		f.fd = nextFD
+		descriptions[f.fd] = &description{ino: f.ino}
+	}
+	return uintptr(f.fd)
 }
 
 var _ vfs.FS = (*FS)(nil)
@@ -123,6 +185,7 @@ func notExist(op, name string) error {
 // ---- FS ----
 
 func (fs *FS) OpenHandle(name string) (vfs.File, error) {
+	fs.yield()
 	name = clean(name)
 	if fs.dirs[name] {
 		return &File{fs: fs, name: name, dir: true}, nil
@@ -135,6 +198,7 @@ func (fs *FS) OpenHandle(name string) (vfs.File, error) {
 }
 
 func (fs *FS) OpenFileHandle(name string, flag int, perm os.FileMode) (vfs.File, error) {
+	fs.yield()
 	name = clean(name)
 	if fs.dirs[name] {
 		return &File{fs: fs, name: name, dir: true}, nil
@@ -168,6 +232,7 @@ func (fs *FS) OpenFileHandle(name string, flag int, perm os.FileMode) (vfs.File,
 }
 
 func (fs *FS) MkdirAll(path string, perm os.FileMode) error {
+	fs.yield()
 	path = clean(path)
 	for p := path; p != "." && p != "/" && p != ""; p = filepath.Dir(p) {
 		fs.dirs[p] = true
@@ -176,6 +241,7 @@ func (fs *FS) MkdirAll(path string, perm os.FileMode) error {
 }
 
 func (fs *FS) RemoveAll(path string) error {
+	fs.yield()
 	path = clean(path)
 	var doomed []string
 	for name := range fs.files {
@@ -199,6 +265,7 @@ func (fs *FS) RemoveAll(path string) error {
 }
 
 func (fs *FS) Remove(name string) error {
+	fs.yield()
 	name = clean(name)
 	if _, ok := fs.files[name]; !ok {
 		if fs.dirs[name] {
@@ -218,6 +285,7 @@ func (fs *FS) Remove(name string) error {
 }
 
 func (fs *FS) Rename(oldPath, newPath string) error {
+	fs.yield()
 	oldPath, newPath = clean(oldPath), clean(newPath)
 	ino, ok := fs.files[oldPath]
 	if !ok {
@@ -232,6 +300,7 @@ func (fs *FS) Rename(oldPath, newPath string) error {
 }
 
 func (fs *FS) Stat(name string) (os.FileInfo, error) {
+	fs.yield()
 	name = clean(name)
 	if fs.dirs[name] {
 		return fileInfo{name: filepath.Base(name), dir: true}, nil
@@ -240,7 +309,7 @@ func (fs *FS) Stat(name string) (os.FileInfo, error) {
 	if !ok {
 		return nil, notExist("stat", name)
 	}
-	return fileInfo{name: filepath.Base(name), size: int64(len(ino.data))}, nil
+	return fileInfo{name: filepath.Base(name), size: int64(len(ino.data)), ino: ino}, nil
 }
 
 func (fs *FS) names(dir string) []string {
@@ -255,6 +324,7 @@ func (fs *FS) names(dir string) []string {
 }
 
 func (fs *FS) ReadDir(name string) ([]os.DirEntry, error) {
+	fs.yield()
 	name = clean(name)
 	if !fs.dirs[name] {
 		return nil, notExist("readdir", name)
@@ -267,6 +337,7 @@ func (fs *FS) ReadDir(name string) ([]os.DirEntry, error) {
 }
 
 func (fs *FS) ReadFile(name string) ([]byte, error) {
+	fs.yield()
 	name = clean(name)
 	ino, ok := fs.files[name]
 	if !ok {
@@ -278,6 +349,10 @@ func (fs *FS) ReadFile(name string) ([]byte, error) {
 }
 
 func (fs *FS) WriteFile(name string, data []byte, perm os.FileMode) error {
+	fs.yield()
+	saved := fs.YieldOnOps
+	fs.YieldOnOps = false // one vfs call = one scheduling point
+	defer func() { fs.YieldOnOps = saved }()
 	f, err := fs.OpenFileHandle(name, os.O_WRONLY|os.O_CREATE|os.O_TRUNC, perm)
 	if err != nil {
 		return err
@@ -290,6 +365,7 @@ func (fs *FS) WriteFile(name string, data []byte, perm os.FileMode) error {
 }
 
 func (fs *FS) Truncate(name string, size int64) error {
+	fs.yield()
 	name = clean(name)
 	ino, ok := fs.files[name]
 	if !ok {
@@ -319,6 +395,7 @@ func (fs *FS) truncate(ino *inode, name string, size int64) error {
 }
 
 func (fs *FS) Glob(pattern string) ([]string, error) {
+	fs.yield()
 	dir := filepath.Dir(pattern)
 	var out []string
 	for _, name := range fs.names(clean(dir)) {
@@ -333,7 +410,7 @@ func (fs *FS) Glob(pattern string) ([]string, error) {
 	return out, nil
 }
 
-func (fs *FS) Hostname() (string, error) { return "verif", nil }
+func (fs *FS) Hostname() (string, error) { fs.yield(); return "verif", nil }
 
 // ---- harness-side accessors (not part of vfs.FS) ----
 
@@ -380,6 +457,7 @@ type File struct {
 	rdonly     bool
 	dir        bool
 	appendMode bool
+	fd         int
 }
 
 var _ vfs.File = (*File)(nil)
@@ -495,24 +573,34 @@ func (f *File) Seek(offset int64, whence int) (int64, error) {
 }
 
 func (f *File) Close() error {
+	f.fs.yield()
 	if f.closed {
 		return os.ErrClosed
 	}
 	f.closed = true
+	if d, ok := descriptions[f.fd]; ok && f.fd != 0 {
+		// closing the description drops its flock
+		d.closed = true
+		if lockHolder[d.ino] == d {
+			delete(lockHolder, d.ino)
+		}
+	}
 	return nil
 }
 
 func (f *File) Stat() (os.FileInfo, error) {
+	f.fs.yield()
 	if f.closed {
 		return nil, os.ErrClosed
 	}
 	if f.dir {
 		return fileInfo{name: filepath.Base(f.name), dir: true}, nil
 	}
-	return fileInfo{name: filepath.Base(f.name), size: int64(len(f.ino.data))}, nil
+	return fileInfo{name: filepath.Base(f.name), size: int64(len(f.ino.data)), ino: f.ino}, nil
 }
 
 func (f *File) Sync() error {
+	f.fs.yield()
 	if f.closed {
 		return os.ErrClosed
 	}
@@ -524,6 +612,7 @@ func (f *File) Sync() error {
 }
 
 func (f *File) Truncate(size int64) error {
+	f.fs.yield()
 	if f.closed {
 		return os.ErrClosed
 	}
@@ -541,6 +630,15 @@ type fileInfo struct {
 	name string
 	size int64
 	dir  bool
+	ino  *inode
+}
+
+// SameFile models os.SameFile for memfs file infos (installed in place of
+// os.SameFile inside the engine): same inode.
+func SameFile(a, b os.FileInfo) bool {
+	x, ok1 := a.(fileInfo)
+	y, ok2 := b.(fileInfo)
+	return ok1 && ok2 && x.ino != nil && x.ino == y.ino
 }
 
 func (fi fileInfo) Name() string { return fi.name }
